@@ -10,10 +10,12 @@ VARIABLES l, nviol, viol, nsug, exp
 tvars == <<r, t, l, nviol, viol, nsug, exp>>
 
 AccCp(e) == [k \in 1..Len(e.inp.acc) |-> e.inp.acc[k].cp]
-Expected(e) == LET j == Suggest(e.inp.r.cp, AccCp(e))
-               IN IF j = 0 THEN "" ELSE "did you mean `" \o e.inp.acc[j].s \o "`? "
+\* the string the call must name ("" = no suggestion); the wording around the name is not fixed by the property, the harness
+\* logs the named string (between the outermost back-quotes) next to the raw text
+Expected(e) == Suggest(e.inp.r.cp, AccCp(e))        \* index of the accepted string to name, 0 = none
+Agrees(e, j) == IF j = 0 THEN e.empty ELSE ~e.empty /\ e.named = e.inp.acc[j].s
 
-TraceInit == r = <<>> /\ t = <<>> /\ l = 1 /\ nviol = 0 /\ viol = <<>> /\ nsug = 0 /\ exp = ""
+TraceInit == r = <<>> /\ t = <<>> /\ l = 1 /\ nviol = 0 /\ viol = <<>> /\ nsug = 0 /\ exp = 0
 
 TraceNext ==
     /\ l <= Len(Rec)
@@ -22,9 +24,9 @@ TraceNext ==
          /\ r' = e.inp.r.cp
          /\ t' = IF Len(e.inp.acc) > 0 THEN e.inp.acc[1].cp ELSE <<>>
          /\ exp' = Expected(e)               \* what the specification says the call returns (evaluated once)
-         /\ nsug' = IF exp' # "" THEN nsug + 1 ELSE nsug
-         /\ nviol' = IF e.out = exp' THEN nviol ELSE nviol + 1
-         /\ viol'  = IF e.out # exp' /\ Len(viol) < 10 THEN Append(viol, l) ELSE viol
+         /\ nsug' = IF exp' # 0 THEN nsug + 1 ELSE nsug
+         /\ nviol' = IF Agrees(e, exp') THEN nviol ELSE nviol + 1
+         /\ viol'  = IF ~Agrees(e, exp') /\ Len(viol) < 10 THEN Append(viol, l) ELSE viol
 
 TraceSpec == TraceInit /\ [][TraceNext]_tvars
 Final == l = Len(Rec) + 1
